@@ -279,6 +279,84 @@ class ModuleInfo:
         raise KeyError(name)
 
 
+PINNED_PARAMS_FILE = Path(__file__).resolve().parent / "pinned_params.json"
+
+
+def _def_key(cls: Optional[str], name: str) -> str:
+    return f"{cls}.{name}" if cls else name
+
+
+def _iter_defs(tree: ast.Module) -> Iterator[tuple[Optional[str],
+                                                   ast.FunctionDef]]:
+    for st in tree.body:
+        if isinstance(st, (ast.FunctionDef, ast.AsyncFunctionDef)):
+            yield None, st  # type: ignore[misc]
+        elif isinstance(st, ast.ClassDef):
+            for sub in st.body:
+                if isinstance(sub, (ast.FunctionDef, ast.AsyncFunctionDef)):
+                    yield st.name, sub  # type: ignore[misc]
+
+
+def _param_args(f: ast.FunctionDef) -> list[ast.arg]:
+    a = f.args
+    return list(a.posonlyargs) + list(a.args) + list(a.kwonlyargs)
+
+
+def normalise_params(trees: list[ast.Module]) -> list[str]:
+    """Alpha-normalisation of parameter names to the signatures recorded on
+    the pinned tree (``pinned_params.json``: ``Class.method`` / ``function``
+    -> parameter names, recorded only for names that are unique in the
+    package).  A function whose parameter *count* equals the recorded one but
+    whose names differ has been subjected to a parameter rename; the rename
+    is undone positionally -- in the definition, in the body, and in keyword
+    arguments at call sites of that name throughout the package -- so that
+    the rules, which name parameters, see an alpha-equivalent program.  A
+    reordering without renaming (same name set) is left alone; a changed
+    count is left alone.  Returns a description of what was normalised."""
+    try:
+        pinned: dict[str, list[str]] = json.loads(
+            PINNED_PARAMS_FILE.read_text())
+    except FileNotFoundError:
+        return []
+    defs: dict[str, list[ast.FunctionDef]] = {}
+    simple: dict[str, int] = {}
+    for tree in trees:
+        for cls, f in _iter_defs(tree):
+            defs.setdefault(_def_key(cls, f.name), []).append(f)
+            simple[f.name] = simple.get(f.name, 0) + 1
+    done: list[str] = []
+    for key, want in pinned.items():
+        fs = defs.get(key, [])
+        if len(fs) != 1:
+            continue
+        f = fs[0]
+        have = [a.arg for a in _param_args(f)]
+        if have == want or len(have) != len(want) or set(have) == set(want):
+            continue
+        mapping = {h: w for h, w in zip(have, want) if h != w}
+        # never capture: a pinned name must not already be used otherwise
+        used = {n.id for n in ast.walk(f) if isinstance(n, ast.Name)} | {
+            a.arg for n in ast.walk(f) if isinstance(n, ast.Lambda)
+            for a in n.args.args}
+        if any(w in used and w not in have for w in mapping.values()):
+            continue
+        for a in _param_args(f):
+            a.arg = mapping.get(a.arg, a.arg)
+        for n in ast.walk(f):
+            if isinstance(n, ast.Name) and n.id in mapping:
+                n.id = mapping[n.id]
+        if simple.get(f.name, 0) == 1 or f.name == "__init__":
+            cname = key.split(".")[0] if f.name == "__init__" else f.name
+            for tree in trees:
+                for n in ast.walk(tree):
+                    if isinstance(n, ast.Call) and call_name(n) == cname:
+                        for kwd in n.keywords:
+                            if kwd.arg in mapping:
+                                kwd.arg = mapping[kwd.arg]
+        done.append(f"{key}({', '.join(f'{h}->{w}' for h, w in mapping.items())})")
+    return done
+
+
 class Index:
     """Parsed view of ``<root>/tel2puml``."""
 
@@ -297,6 +375,7 @@ class Index:
 
     # -- building ---------------------------------------------------------
     def _parse_all(self) -> None:
+        pkg_flags: dict[str, bool] = {}
         for path in sorted(self.pkg_dir.rglob("*.py")):
             rel = path.relative_to(self.root)
             parts = list(rel.with_suffix("").parts)
@@ -313,7 +392,11 @@ class Index:
                 digest=hashlib.sha256(src.encode()).hexdigest()[:16],
             )
             self.modules[modname] = mod
-            self._index_module(mod, is_pkg=path.name == "__init__.py")
+            pkg_flags[modname] = path.name == "__init__.py"
+        self.normalised_params = normalise_params(
+            [m.tree for m in self.modules.values()])
+        for modname, mod in self.modules.items():
+            self._index_module(mod, is_pkg=pkg_flags[modname])
 
     def _index_module(self, mod: ModuleInfo, is_pkg: bool) -> None:
         pkg_parts = mod.name.split(".") if is_pkg else mod.name.split(".")[:-1]
